@@ -24,6 +24,9 @@ impl Ctx<'_> {
         if self.exhausted() {
             return false;
         }
+        if !props::input_ok(self.prop, plans) {
+            return false; // outside the property's input assumptions (e.g. an invalid FEN)
+        }
         self.tried += 1;
         if self.fresh_process {
             // The verdict depends on what the process did before (C16): judge every
